@@ -746,7 +746,10 @@ def run_rdv(ctx):
             AREA, sx(b), sx(c) if c else "n", sx(f), hx(d), st, loc, resp, size, al, bf, cf, ou, pre, oa, sha, hx(cb)))
         kinds.append(k)
     ctx.correspond(exe, lines, kinds, label="client-rendezvous", prop=prop_rdv, key_of=key_rdv, impl_args=DRV_ARGS, crosscheck=12)
+    import time
+    t0 = time.time()
     run_seq(ctx, exe)
+    ctx.extra.setdefault("stage_seconds", {})["client-rendezvous-histories"] = round(time.time() - t0, 1)
 
 
 # ------------------------------------------------------------------ one rendezvous object, many Exchanges
@@ -1047,10 +1050,12 @@ def run(ctx):
     ctx.assumptions += ["models = coq/Model/{B64Url,AmpPath}.v (hand written); tie = correspondence on generated cases"]
     ctx.assumptions += ["idna.ToUnicode / idna.ToASCII / sha256 / url.Parse are library boundaries: their outputs are supplied per case by the Go driver "
                         "(which re-verifies them against the real libraries on the final case line)"]
-    run_path(ctx)
-    run_cache(ctx)
-    run_rdv(ctx)
-    run_broker(ctx)
+    import time
+    st = ctx.extra.setdefault("stage_seconds", {})
+    for name, f in (("path", run_path), ("cache-url", run_cache), ("client-rendezvous", run_rdv), ("broker", run_broker)):
+        t0 = time.time()
+        f(ctx)
+        st[name] = round(time.time() - t0, 1)
 
 
 def replay(ctx, doc):
